@@ -49,6 +49,11 @@ def configs(tier, seed):
                         continue
                     out.append({"n": n, "dw": dw, "al": al, "attach": att,
                                 "trg": [TRG[rnd.randrange(3)] for _ in range(n)], "montrg": TRG[rnd.randrange(3)]})
+    # narrow buses: many-chunk (also non-power-of-two, padded) registers with few events
+    for n, dw in ((5, 1), (3, 1), (7, 2), (5, 2), (7, 3), (4, 3)):
+        for al in (0, 1, 2):
+            out.append({"n": n, "dw": dw, "al": al, "attach": "direct",
+                        "trg": [TRG[rnd.randrange(3)] for _ in range(n)], "montrg": "level"})
     return out
 
 
@@ -215,12 +220,41 @@ def queries(h, cfg):
     k_d = cp + ce + 1
     def w1c_nogap(h, fr):
         return w1c(h, fr, gap=0)
+    # (e) from reset: write enable, read it back, read pending over its whole reported range -------------------
+    def from_reset(h, fr):
+        a1, E, t = write_reg(h, fr, 0, "enable")
+        a2, R, t = read_reg(h, fr, t + 1, "enable")
+        tp = t
+        a3, P, t = read_reg(h, fr, tp, "pending")
+        a = a1 + idle(h, fr[ce]) + a2 + a3
+        bad = []
+        if n:
+            bad.append(mask(R) != mask(E))
+            for src in h.srcs:
+                k = h.em.index(src)
+                mode = cfg["trg"][h.srcs.index(src)]
+                p_ = z3.BoolVal(False)
+                for t_ in range(0, tp):
+                    i1 = is1(fr[t_].sig(src.i))
+                    i0 = is1(fr[t_ - 1].sig(src.i)) if t_ else z3.BoolVal(False)      # edge detectors initially low
+                    p_ = z3.Or(p_, {"level": i1, "rise": z3.And(z3.Not(i0), i1), "fall": z3.And(i0, z3.Not(i1))}[mode])
+                bad.append((z3.Extract(k, k, P) == 1) != p_)
+        if P.size() > n:
+            bad.append(z3.Extract(P.size() - 1, n, P) != 0)
+        if R.size() > n:
+            bad.append(z3.Extract(R.size() - 1, n, R) != 0)
+        return a, z3.Or(*bad) if bad else z3.BoolVal(False)
+    k_e = ce + 1 + ce + cp + 1
     qs = [Q("pending-read-in-the-clear-cycle", k_c - 1, w1c_nogap, max_prefix=2),
           Q("enable-write-reads-back", k_a, enable_rw, max_prefix=2),
           Q("line-is-enable-and-pending-snapshot", k_b, line, max_prefix=2,
             twin=(lambda h, fr: (line(h, fr)[0], is1(fr[1 + ce + 1].sig(h.mon.src.i)))) if n else None),
           Q("pending-write-one-to-clear", k_c, w1c, twin=w1c_twin, max_prefix=2),
           Q("reset-values", k_d, reset_vals, init="reset")]
+    if n <= 9:
+        # (reset-rooted windows over many wide masks are out of the solver's reach: > 150 s for 17 events / 3 chunks;
+        #  long multi-chunk registers are obtained cheaply with 1-3 bit wide buses instead)
+        qs.insert(0, Q("from-reset-write-enable-read-enable-read-pending", k_e, from_reset, init="reset"))
     return qs
 
 
